@@ -37,6 +37,21 @@ DEP_CLASSES = [
     urwid.Button, urwid.CheckBox, urwid.RadioButton,
 ]
 
+# Obligations of (b) that fail on the unchanged tree — each replayed on the real classes (cached render != render
+# after CanvasCache.clear()); left in, excluded from nothing:
+# FAILS-ON-TREE: Pile.render     p = Pile([Text("a"), inner]) with inner = Pile([]) (0 rows): p.render((5,)); then
+#                inner.contents.append((Text("x"), ("pack", None))); p.render((5,)) still shows ['a    '] (fresh: 'a','x');
+#                same with Pile([inner]) alone: the blank SolidCanvas exit (`if not combinelist`) has no dependency at all.
+# FAILS-ON-TREE: Columns.render  c = Columns([("pack", t), Text("b")]) with t = Text("") (packs to 0 columns, column hidden):
+#                c.render((6,)); t.set_text("zz"); c.render((6,)) still shows 'b     ' (fresh: 'zzb   ').
+# FAILS-ON-TREE: Frame.render    f = Frame(SolidFill("."), header=h) with h = Pile([]) (0 rows => htrim == 0, header not rendered):
+#                f.render((4,3)); h.contents.append((Text("HDR"), ("pack", None))); f.render((4,3)) still has no header row.
+# FAILS-ON-TREE: Overlay.render  o = Overlay(t, SolidFill("."), "center", ("relative", 100), "top", "pack") with t = Pile([]):
+#                o.render((6,)) has 0 rows (exit `not bottom_c.rows()`); t.contents.append((Text("hey"), ("pack", None)));
+#                o.render((6,)) and o.rows((6,)) still answer 0 rows (fresh: 1 row 'hey   ').
+# In all four the child was consulted through rows()/pack() only, was never rendered, so it is not in the cache and its
+# _invalidate() reaches nobody.
+
 # Exemptions of (b) (each needed on the unchanged tree; the key is printed by a failing obligation):
 DEP_EXEMPT = {
     "ListBox.render@ListBox.render#ret0:*": "the `middle is None` exit is taken only when the walker's focus widget is None, i.e. the body is empty, and then "
